@@ -337,6 +337,27 @@ func semanticBodies(w *world, v *variant, kc *keyCfg, thorough bool) []bodyCase 
 		ds1 := honestDS(kc.k, hSHA256, sctInput(c1, v.sub.entry))
 		out = append(out, bodyCase{label: "sct:extensions-dropped-after-signing", body: sctBody(kc.id(), sctContent{ts: c1.ts}, ds1).String()})
 		out = append(out, bodyCase{label: "sct:extensions-changed-after-signing", body: sctBody(kc.id(), sctContent{ts: c1.ts, ext: []byte{1, 2, 4}}, ds1).String()})
+		// extensions at and beyond what the 2-byte length prefix of an SCT can express: 65535 bytes is an SCT like any other;
+		// anything longer is not an SCT, whatever the log signed (the bytes with the length prefix wrapped modulo 2^16, or cut)
+		bigExt := func(n int) []byte {
+			b := make([]byte, n)
+			for i := range b {
+				b[i] = byte(i*13 + 1)
+			}
+			return b
+		}
+		c65535 := sctContent{ts: c.ts, ext: bigExt(65535)}
+		out = append(out, bodyCase{label: "sct:extensions-65535-bytes", body: sctBody(kc.id(), c65535, honestDS(kc.k, hSHA256, sctInput(c65535, v.sub.entry))).String(), benign: true})
+		for _, n := range []int{65536, 65539, 131072} {
+			ext := bigExt(n)
+			base := sctInput(sctContent{ts: c.ts}, v.sub.entry) // ends with the empty extensions' 00 00
+			wrapped := append(append(append([]byte{}, base[:len(base)-2]...), byte(n>>8), byte(n)), ext...)
+			out = append(out, bodyCase{label: fmt.Sprintf("sct:extensions-%d-bytes signed-over-wrapped-length-prefix", n),
+				body: sctBody(kc.id(), sctContent{ts: c.ts, ext: ext}, honestDS(kc.k, hSHA256, wrapped)).String()})
+			cut := sctInput(sctContent{ts: c.ts, ext: ext[:n%65536]}, v.sub.entry)
+			out = append(out, bodyCase{label: fmt.Sprintf("sct:extensions-%d-bytes signed-over-cut-extensions", n),
+				body: sctBody(kc.id(), sctContent{ts: c.ts, ext: ext}, honestDS(kc.k, hSHA256, cut)).String()})
+		}
 		// an STH signature of the same key
 		sc := w.sthContents()[0]
 		out = append(out, bodyCase{label: "sct:signature-of-an-STH", body: sctBody(kc.id(), c, honestDS(kc.k, hSHA256, sthInput(sc))).String()})
